@@ -140,7 +140,7 @@ class _Mangler(ast.NodeVisitor):
 
 
 class Program:
-    def __init__(self, repo: str = None, overrides: Dict[str, str] = None):
+    def __init__(self, repo: str = None, overrides: Dict[str, str] = None, normalise: bool = True):
         """overrides: rel path -> replacement source text (used by the thorough tier's in-memory break synthesis)."""
         self.repo = repo or REPO
         self.pkg = os.path.join(self.repo, PKG_REL)
@@ -169,7 +169,6 @@ class Program:
                     modname = os.path.relpath(path, self.pkg)[:-3].replace(os.sep, '.')
                     if modname.endswith('__init__'):
                         modname = modname[:-9] or '__init__'
-                    _Mangler().visit(tree)
                     m = Module(modname, path, rel, src, tree)
                     self.modules[modname] = m
                 elif fn.endswith('.html'):
@@ -178,6 +177,15 @@ class Program:
                         with open(path, encoding='utf-8') as f:
                             txt = f.read()
                     self.texts[rel] = txt
+        self.normalisation_log: List[str] = []
+        if normalise and os.environ.get('PJPLAN_NO_NORMALISE') != '1':
+            from . import normalize
+            try:
+                self.normalisation_log = normalize.apply({k: v.tree for k, v in self.modules.items()})
+            except RecursionError:
+                self.normalisation_log = ['normalisation aborted (recursion)']
+        for m in self.modules.values():
+            _Mangler().visit(m.tree)
         for m in self.modules.values():
             self._index_module(m)
         self.digest = self._digest()
